@@ -61,6 +61,13 @@ def fingerprints():
     return res
 
 
+def tick(c, label):
+    """wall-clock marks of the phases of a check (evidence: coverage.timing_s)"""
+    import time
+    t = c.cov.setdefault("timing_s", {})
+    t[label] = round(time.time() - c.t0, 1)
+
+
 def make_cfg(c, base, name, consts=None, invariants=None, subst=()):
     txt = open(os.path.join(vf.SPEC, base)).read()
     for k, v in (consts or {}).items():
@@ -118,11 +125,18 @@ def run_models(c, modes, fp):
             consts[fc] = "TRUE"
             jobs.append((m, "faithful", make_cfg(c, base[m], "Suppr_%s_faithful.cfg" % m, consts), False))
 
+    if c.thorough:      # vacuity guards: the transcription does hide because of a range / does hide exactly the named interface
+        for m, cfgname in (("ranges", "SupprVacuityRanges.cfg"), ("ifaces", "SupprVacuityIfaces.cfg")):
+            if m in modes:
+                jobs.append((m, "vacuity", make_cfg(c, cfgname, cfgname), False))
+
     def run(job):
         m, flavour, cfg, must = job
         return job, vf.tlc_check("Suppr.tla", cfg, workers=4, timeout=1400, heap="4g")
     for (m, flavour, cfg, must), r in vf.pmap(run, jobs, jobs=4):
         _record(c, r, must)
+        if flavour == "vacuity" and r["ok"]:
+            vf.infra("vacuity guard of mode %s holds: the transcription never hides anything" % m)
         if flavour == "faithful":
             dev = {"mode": m, "constant": faithful_const[m], "holds": r["ok"]}
             dev.update(_last_state(r["out"], ["sec", "chg", "obs", "ifs"]))
@@ -152,7 +166,7 @@ def gen_cases(c, n, name="gen", constraints=(), rounds_max=8, keep=None, **kw):
     with open(cfg, "w") as f:
         f.write("CONSTANTS\n" + "".join("  %s = %s\n" % kv for kv in d.items()))
         f.write("SPECIFICATION Spec\nCONSTRAINT EmitS\n" + "".join("CONSTRAINT %s\n" % x for x in constraints) + "CHECK_DEADLOCK FALSE\n")
-    per = max(8, n // 3 + 1)
+    per = max(8, n * 4 if (constraints or keep) else n // 3 + 1)     # a constrained walk often ends before a case is complete
     cases, rounds = [], 0
     while len(cases) < n and rounds < rounds_max:
         g = vf.tlc_generate("SupprCase.tla", cfg, simulate=per, depth=80, seed=c.seed * 131 + rounds * 7 + int(c.pid[1:]), workers=4)
@@ -176,8 +190,11 @@ def gen_sections(c, n, kinds, fields=range(1, 11), odds=3, name="sections"):
     out, rounds = [], 0
     while len(out) < n and rounds < 4:
         g = vf.tlc_generate("SupprGen.tla", cfg, simulate=max(n, 20) * 2, depth=40, seed=c.seed * 977 + rounds * 13 + int(c.pid[1:]), workers=2)
+        before = len(out)
         out = _dedup(out + g["cases"])
         rounds += 1
+        if len(out) == before:       # a small stratum is exhausted
+            break
     return out[:n]
 
 
@@ -235,8 +252,9 @@ def iface_records(case, direction="ab", versioned=False):
     return res
 
 
-def type_records(case, file="types.h", base="types.h", via_ptr=None):
-    """every named type of the two programs and one record per kind of unnamed type, as Suppr!TypeChange records"""
+def type_records(case, file="types.h", base="types.h", via_ptr=None, all_via_ptr=False):
+    """every named type of the two programs and one record per kind of unnamed type, as Suppr!TypeChange records
+    (all_via_ptr: assume a pointer leads to every type -- makes more sections satisfiable, never fewer)"""
     res, seen = [], set()
     for sfx in ("", "2"):
         for t in case["types" + sfx]:
@@ -251,7 +269,7 @@ def type_records(case, file="types.h", base="types.h", via_ptr=None):
             if key in seen:
                 continue
             seen.add(key)
-            res.append(tchange(nm, k, f, b, bool(via_ptr and nm in via_ptr)))
+            res.append(tchange(nm, k, f, b, all_via_ptr or bool(via_ptr and nm in via_ptr)))
     res.append(tchange("", "fntype", "", "", False))
     return res
 
@@ -397,6 +415,10 @@ def validate(c, events, case_of=None, chunk=2500):
                 if ev is not None:
                     ev["_skipped"] = True
             else:
+                vd = c.cov.setdefault("rejected_by_verdict", {})
+                vd[v] = vd.get(v, 0) + 1
+                if ev is not None:
+                    ev["_verdict"] = v
                 c.violation("trace %s rejected at event %d (%s)" % (TRACE[0], i0 + i, v), ev, case_of)
         for (i, ev, kid) in r["kf"]:
             if kid in listed:
@@ -410,3 +432,211 @@ def validate(c, events, case_of=None, chunk=2500):
 
 def replay(path):
     return vf.replay_event(TRACE[0], TRACE[1], path)
+
+
+# ------------------------------------------------------------------------------------------------ C25, application part
+# Odd suppression files applied to real binaries through abidiff / abidw / abicompat.  The binaries carry what the matching code
+# branches on: C functions and a variable whose symbols have aliases (__attribute__((alias)), one of them weak), a struct that
+# grows, a pointer parameter whose pointed-to type changes kind (struct S* -> int*), an empty struct, an enum whose enumerator
+# value changes, a removed and an added function.
+APP_V1 = r"""
+struct S { int a; char b; };
+struct Empty { };
+enum En { En_a = 0, En_b = 1 };
+typedef struct S T;
+int fn_main(struct S *p) { return p ? 1 : 0; }
+int fn_alias1(struct S *p) __attribute__((alias("fn_main")));
+int fn_alias2(struct S *p) __attribute__((weak, alias("fn_main")));
+int var_main = 1;
+extern int var_alias __attribute__((alias("var_main")));
+void fn_ptr(struct S *p) { }
+void fn_empty(struct Empty *p, T *q) { }
+enum En fn_enum(enum En e) { return e; }
+int fn_removed(int a) { return a; }
+struct S var_s;
+"""
+APP_V2 = r"""
+struct S { int a; char b; char c; long d; };
+struct Empty { int x; };
+enum En { En_a = 0, En_b = 7 };
+typedef struct S T;
+int fn_main(struct S *p) { return p ? 1 : 0; }
+int fn_alias1(struct S *p) __attribute__((alias("fn_main")));
+int fn_alias2(struct S *p) __attribute__((weak, alias("fn_main")));
+long var_main = 1;
+extern long var_alias __attribute__((alias("var_main")));
+void fn_ptr(int *p) { }
+void fn_empty(struct Empty *p, T *q) { }
+enum En fn_enum(enum En e) { return e; }
+int fn_added(int a) { return a; }
+struct S var_s;
+"""
+APP_MAIN = r"""
+struct S; extern int fn_main(struct S *p); extern int fn_alias1(struct S *p); extern int var_alias;
+int main(void) { return fn_main(0) + fn_alias1(0) + var_alias; }
+"""
+_SECTION_PROPS = {
+    "suppress_type": ["label", "file_name_regexp", "file_name_not_regexp", "soname_regexp", "soname_not_regexp", "name", "name_regexp", "name_not_regexp",
+                      "type_kind", "source_location_not_in", "source_location_not_regexp", "accessed_through", "drop", "changed_enumerators",
+                      "has_data_member_inserted_at", "has_data_member_inserted_between", "has_data_members_inserted_between"],
+    "suppress_function": ["label", "file_name_regexp", "file_name_not_regexp", "soname_regexp", "soname_not_regexp", "name", "name_regexp", "name_not_regexp",
+                          "parameter", "return_type_name", "return_type_regexp", "symbol_name", "symbol_name_regexp", "symbol_name_not_regexp", "symbol_version",
+                          "symbol_version_regexp", "change_kind", "allow_other_aliases", "drop"],
+    "suppress_variable": ["label", "file_name_regexp", "file_name_not_regexp", "soname_regexp", "soname_not_regexp", "name", "name_regexp", "name_not_regexp",
+                          "symbol_name", "symbol_name_regexp", "symbol_name_not_regexp", "symbol_version", "symbol_version_regexp", "type_name", "type_name_regexp",
+                          "change_kind", "drop"],
+    "suppress_file": ["label", "file_name_regexp", "file_name_not_regexp", "soname_regexp", "soname_not_regexp"],
+}
+_ANCHOR = {"suppress_type": "name = S", "suppress_function": "name_regexp = fn_", "suppress_variable": "name_regexp = var_", "suppress_file": "file_name_regexp = nonexistent"}
+_BAD_PATTERNS = ["(", "a\\[", "*a", "a\\{"]
+
+
+def odd_suppression_files():
+    """(group, text) pairs: the grammar of odd-but-plausible suppression files of DESIGN.md section 6, C25"""
+    out = []
+    for sec, props in _SECTION_PROPS.items():
+        for p in props:
+            # valueless properties, with and without a sufficient property next to them
+            out.append(("valueless", "[%s]\n  %s =\n" % (sec, p)))
+            out.append(("valueless", "[%s]\n  %s\n  %s =\n" % (sec, _ANCHOR[sec], p)))
+            out.append(("valueless", "[%s]\n  %s\n  %s\n" % (sec, _ANCHOR[sec], p)))
+            # lists / tuples where strings are expected
+            out.append(("list-for-string", "[%s]\n  %s\n  %s = a, b\n" % (sec, _ANCHOR[sec], p)))
+            out.append(("list-for-string", "[%s]\n  %s = S, fn_main, var_main\n" % (sec, p)))
+            out.append(("tuple-for-string", "[%s]\n  %s\n  %s = {a, b}\n" % (sec, _ANCHOR[sec], p)))
+            out.append(("tuple-for-string", "[%s]\n  %s = {{a, b}, {c}}\n" % (sec, p)))
+            if p.endswith("regexp"):
+                for bad in _BAD_PATTERNS:
+                    out.append(("invalid-regexp", "[%s]\n  %s = %s\n" % (sec, p, bad)))
+                out.append(("invalid-regexp", "[%s]\n  %s\n  %s = (\n" % (sec, _ANCHOR[sec], p)))
+    # name_not_regexp & co. on aliased symbols
+    for sec, props in (("suppress_function", ("name_not_regexp", "symbol_name_not_regexp")), ("suppress_variable", ("name_not_regexp", "symbol_name_not_regexp"))):
+        for p in props:
+            for v in ("^zz", "alias1", "^fn_main$", "^var_", ".*"):
+                out.append(("not-regexp-on-aliases", "[%s]\n  %s = %s\n" % (sec, p, v)))
+                out.append(("not-regexp-on-aliases", "[%s]\n  %s = %s\n  allow_other_aliases = yes\n" % (sec, p, v)))
+                out.append(("not-regexp-on-aliases", "[%s]\n  %s = %s\n  change_kind = all\n  name_regexp = fn_\n" % (sec, p, v)))
+    # huge numbers
+    for v in ("99999999999999999999", "4294967296", "2147483648", "-1", "18446744073709551615", "0x10", "1e9"):
+        out.append(("huge-number", "[suppress_type]\n  name = S\n  has_data_member_inserted_at = %s\n" % v))
+        out.append(("huge-number", "[suppress_type]\n  name = S\n  has_data_member_inserted_between = {%s, %s}\n" % (v, v)))
+        out.append(("huge-number", "[suppress_type]\n  name = S\n  has_data_member_inserted_between = {0, %s}\n" % v))
+        out.append(("huge-number", "[suppress_type]\n  name = S\n  has_data_members_inserted_between = {{%s, end}, {0, %s}}\n" % (v, v)))
+        out.append(("huge-number", "[suppress_function]\n  name = fn_main\n  parameter = '%s int\n" % v))
+    # has_data_member_inserted_* with garbage
+    garbage = ["garbage", "{foo, bar}", "{offset_of(), end}", "{offset_of(a, b), end}", "{offset_after(nonexistent), end}", "{offset_of(a), offset_after(zz)}",
+               "{end, 0}", "{}", "{{1, 2}, {3}}", "{1, 2, 3}", "{1}", "offset_of", "offset_of(", "foo(bar)", "offset_of(a", "{offset_of(a}, end}", "end, end",
+               "{{offset_of(b), end}}", "{offset_after(b), offset_of(b)}", "{foo(bar), baz(qux)}", "{ , }", "{,}", "{end}"]
+    for g in garbage:
+        for p in ("has_data_member_inserted_at", "has_data_member_inserted_between", "has_data_members_inserted_between"):
+            out.append(("range-garbage", "[suppress_type]\n  name = S\n  %s = %s\n" % (p, g)))
+            out.append(("range-garbage", "[suppress_type]\n  name_regexp = .*\n  %s = %s\n" % (p, g)))
+    for t in ("Empty", "T", "En"):
+        for r in ("end", "0", "offset_of(x)", "offset_after(a)"):
+            out.append(("range-on-odd-type", "[suppress_type]\n  name = %s\n  has_data_member_inserted_at = %s\n" % (t, r)))
+            out.append(("range-on-odd-type", "[suppress_type]\n  name = %s\n  has_data_member_inserted_between = {%s, end}\n" % (t, r)))
+    # everything else the matching code branches on
+    misc = ["[suppress_type]\n  name = S\n  accessed_through = %s\n" % v for v in ("pointer", "reference", "reference-or-pointer", "direct", "bogus")]
+    misc += ["[suppress_type]\n  name_regexp = .*\n  accessed_through = %s\n" % v for v in ("pointer", "reference", "reference-or-pointer")]
+    misc += ["[suppress_type]\n  type_kind = %s\n" % v for v in ("class", "struct", "union", "enum", "array", "typedef", "builtin", "bogus")]
+    misc += ["[suppress_type]\n  type_kind = enum\n  changed_enumerators = %s\n" % v for v in ("En_b", "En_a, En_b", "zz", "{En_b}")]
+    misc += ["[suppress_type]\n  source_location_not_regexp = %s\n" % v for v in ("(", ".*", "zz")]
+    misc += ["[suppress_type]\n  source_location_not_in = %s\n" % v for v in ("v1.c", "v1.c, v2.c", "{v1.c}", "zz")]
+    misc += ["[suppress_type]\n  name = S\n  drop = %s\n" % v for v in ("yes", "true", "no", "bogus")]
+    misc += ["[suppress_function]\n  parameter = %s\n" % v for v in ("'0 S*", "'0 /(/", "'0 /S.*/", "0 int", "'", "'x int", "'0", "'0 /", "'1 /^int$/", "garbage")]
+    misc += ["[suppress_function]\n  return_type_name = int\n", "[suppress_function]\n  return_type_regexp = (\n", "[suppress_function]\n  return_type_regexp = .*\n"]
+    misc += ["[suppress_function]\n  name = fn_main\n", "[suppress_function]\n  name = fn_alias1\n  allow_other_aliases = no\n", "[suppress_function]\n  symbol_name = fn_alias2\n",
+             "[suppress_function]\n  symbol_name_regexp = alias\n", "[suppress_function]\n  name_regexp = alias\n", "[suppress_function]\n  label = only\n",
+             "[suppress_function]\n  symbol_version = V1\n", "[suppress_function]\n  symbol_version_regexp = (\n", "[suppress_function]\n  name_regexp = fn_\n  drop = yes\n"]
+    misc += ["[suppress_function]\n  name_regexp = fn_\n  change_kind = %s\n" % v for v in ("added-function", "deleted-function", "function-subtype-change", "all", "bogus", "a, b")]
+    misc += ["[suppress_variable]\n  name = var_main\n", "[suppress_variable]\n  symbol_name = var_alias\n", "[suppress_variable]\n  type_name = int\n",
+             "[suppress_variable]\n  type_name_regexp = (\n", "[suppress_variable]\n  name_regexp = var_\n  drop = yes\n", "[suppress_variable]\n  label = only\n"]
+    misc += ["[suppress_variable]\n  name_regexp = var_\n  change_kind = %s\n" % v for v in ("added-variable", "deleted-variable", "variable-subtype-change", "all", "bogus")]
+    misc += ["[suppress_file]\n  file_name_regexp = v1\n", "[suppress_file]\n  file_name_not_regexp = v1\n", "[suppress_file]\n  soname_regexp = .*\n", "[suppress_file]\n  soname_not_regexp = zz\n",
+             "[suppress_file]\n  label = only\n", "[bogus_section]\n  name = S\n", "[suppress_type]\n", "", "[", "[suppress_type", "name = S\n"]
+    out += [("misc", t) for t in misc]
+    return out
+
+
+def _crash_kind(r):
+    if r.timeout:
+        return "timeout"
+    m = re.search(r"ERROR: AddressSanitizer: ([\w-]+)", r.err)
+    if m:
+        return "asan:" + m.group(1)
+    m = re.search(r"runtime error: ([^\n]*)", r.err)
+    if m:
+        t = re.sub(r"0x[0-9a-f]+|-?\d+", "N", m.group(1))
+        return "ubsan:" + re.sub(r" (for|of|to) type .*$| in type .*$|, which .*$", "", t)[:48].strip().replace(" ", "-").replace("'", "")
+    if "Assertion `" in r.err and r.sig == 6:
+        return "assert"
+    m = re.search(r"terminate called after throwing an instance of '([^']*)'", r.err)
+    if m:
+        return "uncaught:" + m.group(1)
+    if r.sig:
+        return "SIG%d" % r.sig
+    return "none"
+
+
+def _crash_fn(r):
+    from checks import _elfhash as eh
+    m = re.search(r"^[^:\n]+: [^:\n]+:\d+: (.*?): Assertion `", r.err, re.M)
+    if m:
+        return eh.short_fn(m.group(1))
+    fn, foreign = eh.classify_stack(r.err)
+    return ("foreign:" + fn) if foreign else fn
+
+
+def suppr_application_events(c, variant="asan", limit="auto", timeout=120):
+    """Apply the odd suppression files to binaries with aliased symbols through abidiff / abidw / abicompat of the given build
+    variant.  Returns events {"e": "SupprRun", "tool", "group", "text", "exit", "ret", "kind", "fn"}: `ret` is campaign.retof's
+    termination class ("ok" = normal exit), `kind` the crash class (none / SIG<n> / assert / asan:<x> / ubsan:<x> / uncaught:<x> /
+    timeout), `fn` the innermost non-runtime function of the sanitizer stack or the function of the failed assertion
+    ("foreign:..." when it lies in libelf / libdw / libxml2)."""
+    d = os.path.join(c.workdir, "suppr-app")
+    os.makedirs(d, exist_ok=True)
+    for nm, src in (("v1.c", APP_V1), ("v2.c", APP_V2), ("app.c", APP_MAIN)):
+        with open(os.path.join(d, nm), "w") as f:
+            f.write(src)
+    for cmd in (["gcc", "-g", "-w", "-O0", "-fPIC", "-shared", "-o", "libv1.so", "v1.c"], ["gcc", "-g", "-w", "-O0", "-fPIC", "-shared", "-o", "libv2.so", "v2.c"],
+                ["gcc", "-g", "-w", "-O0", "-o", "app", "app.c", "-L.", "-l:libv1.so"]):
+        r = subprocess.run(cmd, cwd=d, stdout=subprocess.PIPE, stderr=subprocess.PIPE, text=True)
+        if r.returncode != 0:
+            vf.infra("suppression application binaries do not build: " + r.stderr[-300:])
+    v1, v2, app = (os.path.join(d, x) for x in ("libv1.so", "libv2.so", "app"))
+    tools = {t: vf.tool(variant, t) for t in ("abidiff", "abidw", "abicompat")}
+    env = vf.henv(d)
+    files = odd_suppression_files()
+    if limit == "auto":
+        limit = None if c.thorough else 240
+    if limit and limit < len(files):
+        # every group stays represented: the files are taken round-robin over the groups, in a seeded order
+        rng = c.rng.__class__(c.seed)
+        groups = {}
+        for g, t in files:
+            groups.setdefault(g, []).append((g, t))
+        for g in groups:
+            rng.shuffle(groups[g])
+        files = []
+        while len(files) < limit and any(groups.values()):
+            for g in list(groups):
+                if groups[g] and len(files) < limit:
+                    files.append(groups[g].pop())
+
+    def one(job):
+        k, (group, text) = job
+        f = os.path.join(d, "odd%d.suppr" % k)
+        with open(f, "w") as fh:
+            fh.write(text)
+        runs = [("abidiff", [tools["abidiff"], "--no-default-suppression", "--suppressions", f, v1, v2]),
+                ("abidiff-rev", [tools["abidiff"], "--no-default-suppression", "--redundant", "--harmless", "--suppressions", f, v2, v1]),
+                ("abidw", [tools["abidw"], "--no-default-suppression", "--suppressions", f, v1]),
+                ("abicompat", [tools["abicompat"], "--no-default-suppression", "--suppressions", f, app, v1, v2])]
+        evs = []
+        for tool, cmd in runs:
+            r = vf.run(cmd, env=env, timeout=timeout)
+            ret = campaign.retof(r)
+            evs.append({"e": "SupprRun", "tool": tool, "variant": variant, "group": group, "k": k, "text": text, "exit": r.exit, "ret": ret,
+                        "kind": _crash_kind(r) if ret != "ok" else "none", "fn": _crash_fn(r) if ret != "ok" else "", "err": r.err[-600:] if ret != "ok" else ""})
+        return evs
+    return [e for evs in vf.pmap(one, list(enumerate(files))) for e in evs]
